@@ -33,6 +33,11 @@ type verifSDriver struct {
 	submits []crypto.Hash // finalized withdrawal submissions not yet claimed
 	batch   uint64
 	n       int
+	// deposits built so far per asset (finalized or not): the driver stays below the deposit capacity of every
+	// asset, because deposits that are admissible one by one but exceed the capacity together cannot be
+	// finalized (C16's recorded finding), which is not what the monitors using this driver are about
+	deposited map[crypto.Hash]*big.Int
+	fresh     int
 }
 
 type verifSDTx struct {
@@ -44,7 +49,7 @@ type verifSDTx struct {
 }
 
 func newVerifSDriver(sim *verifledger.Sim, rng *rand.Rand) *verifSDriver {
-	d := &verifSDriver{sim: sim, rng: rng, assets: verifgen.Assets(), batch: 2000}
+	d := &verifSDriver{sim: sim, rng: rng, assets: append([]verifgen.AssetInfo{}, verifgen.Assets()...), batch: 2000, deposited: map[crypto.Hash]*big.Int{}}
 	d.w = verifgen.NewWallet(sim.Net.Label, rng, &sim.Net.Custodian, 5)
 	return d
 }
@@ -59,8 +64,9 @@ func (d *verifSDriver) next() *verifSDTx {
 	xin := d.assets[0]
 	switch {
 	case r < 30 || len(d.w.Outs) < 4:
-		a := d.assets[d.rng.Intn(len(d.assets))]
-		tx, specs := d.w.Deposit(a, big.NewInt(int64(1+d.rng.Intn(5e8))))
+		units := big.NewInt(int64(1 + d.rng.Intn(5e8)))
+		a := d.depositAsset(units)
+		tx, specs := d.w.Deposit(a, units)
 		return &verifSDTx{Kind: "deposit", Tx: tx, Specs: specs}
 	case r < 60:
 		tx, specs, ins := d.w.Transfer(1+d.rng.Intn(3), 1+d.rng.Intn(3), true)
@@ -96,7 +102,14 @@ func (d *verifSDriver) next() *verifSDTx {
 		tx := verifgen.WithdrawalClaim(d.w.Custodian, submit, ins, []verifgen.OutSpec{spec}, verifgen.Units(fee), fmt.Sprint(d.n))
 		d.w.Remove(ins)
 		specs := []verifgen.OutSpec{{Type: common.OutputTypeWithdrawalClaim}, spec}
-		return &verifSDTx{Kind: "withdrawal-claim", Tx: tx, Specs: specs, apply: func() { d.submits = d.submits[1:] }}
+		return &verifSDTx{Kind: "withdrawal-claim", Tx: tx, Specs: specs, apply: func() {
+			for i, h := range d.submits { // several candidates may have been built for the same submission
+				if h == submit {
+					d.submits = append(d.submits[:i:i], d.submits[i+1:]...)
+					break
+				}
+			}
+		}}
 	case r < 82:
 		d.batch++
 		units := big.NewInt(int64(1 + d.rng.Intn(90_0000_0000)))
@@ -122,7 +135,17 @@ func (d *verifSDriver) next() *verifSDTx {
 				return &verifSDTx{Kind: "node-pledge", Tx: tx, Specs: []verifgen.OutSpec{{Type: common.OutputTypeNodePledge}}, apply: func() { d.pending = n }}
 			}
 		}
-		// no exact output yet: deposit one for a single owner
+		// no exact output yet: deposit one for a single owner (while XIN deposits stay below 60% of its capacity)
+		pu := verifgen.UnitsOf(common.KernelNodePledgeAmount)
+		xl := verifgen.UnitsOf(common.GetAssetCapacity(xin.Id))
+		xl.Mul(xl, big.NewInt(6)).Div(xl, big.NewInt(10))
+		if d.deposited[xin.Id] == nil {
+			d.deposited[xin.Id] = new(big.Int)
+		}
+		if new(big.Int).Add(d.deposited[xin.Id], pu).Cmp(xl) > 0 {
+			return nil
+		}
+		d.deposited[xin.Id].Add(d.deposited[xin.Id], pu)
 		owner := d.w.Addrs[d.rng.Intn(len(d.w.Addrs))]
 		spec := verifgen.OutSpec{Type: common.OutputTypeScript, Owners: []common.Address{owner}, Threshold: 1, Amount: common.KernelNodePledgeAmount, Seed: d.w.Seed()}
 		tx := verifgen.Deposit(d.w.Custodian, xin.Id, xin.Chain, xin.Key, fmt.Sprintf("0xpledgefund-%s-%d", d.sim.Net.Label, d.n), 0, common.KernelNodePledgeAmount, spec)
@@ -145,6 +168,35 @@ func (d *verifSDriver) next() *verifSDTx {
 			}
 		}
 		return nil
+	}
+}
+
+// depositAsset picks the asset of the next deposit; an asset (other than XIN) whose deposits reach 80% of
+// its capacity is retired and replaced by a fresh one.
+func (d *verifSDriver) depositAsset(units *big.Int) verifgen.AssetInfo {
+	for {
+		i := d.rng.Intn(len(d.assets))
+		a := d.assets[i]
+		used := d.deposited[a.Id]
+		if used == nil {
+			used = new(big.Int)
+			d.deposited[a.Id] = used
+		}
+		limit := verifgen.UnitsOf(common.GetAssetCapacity(a.Id))
+		if i == 0 {
+			limit.Mul(limit, big.NewInt(6)).Div(limit, big.NewInt(10)) // genesis pledges and mints also count towards XIN's total
+		} else {
+			limit.Mul(limit, big.NewInt(8)).Div(limit, big.NewInt(10))
+		}
+		if new(big.Int).Add(used, units).Cmp(limit) <= 0 {
+			used.Add(used, units)
+			return a
+		}
+		if i == 0 {
+			continue // XIN is never retired; another asset takes the deposit
+		}
+		d.fresh++
+		d.assets[i] = verifgen.AssetInfo{Id: crypto.Sha256Hash([]byte(fmt.Sprintf("sd-fresh-%s-%d", d.sim.Net.Label, d.fresh))), Chain: common.EthereumAssetId, Key: fmt.Sprintf("0xb%039d", d.fresh)}
 	}
 }
 
